@@ -904,7 +904,103 @@ def gen_delegate(rng, exc):
     return {"scalar": "delegate", "steps": steps, "at": rng.choice(cand), "exc": exc, "observe": rng.randint(0, 1)}
 
 
-RUNNERS = {"delegate": run_delegate, "observe-filter": run_observe_filter, "legacy-chain": run_legacy_chain, "validator": run_validator, "default": run_default, "property": run_property,
+# ------------------------------------------------------------------ 11. synchronised traits (the library's own change handler calls the partner's validator)
+
+def run_sync(c):
+    """A hub of objects linked with sync_trait; the validator of one partner raises while the library propagates a change.
+    The assignment on the source has succeeded, so the failure of that ONE partner must not leave the group half-updated:
+    every other partner holds the new value, the failing one keeps its old value, no lock stays set; a failure of the
+    source's own validator is an ordinary rejected assignment (nothing changes anywhere)."""
+    from traits.api import HasTraits, TraitType, Int
+    fault = Fault()
+    where = []
+
+    class Picky(TraitType):
+        default_value = 0
+
+        def validate(self, obj, name, value):
+            try:
+                fault.tick()
+            except Exception:
+                where.append(obj)
+                raise
+            if isinstance(value, int):
+                return value
+            self.error(obj, name, value)
+
+    class A(_Base()):
+        x = Int()
+
+    class B(_Base()):
+        x = Picky()
+    kinds = c["kinds"]                      # e.g. "ABAB": object 0 is the hub
+    objs = [(A if k == "A" else B)() for k in kinds]
+    for i in c["order"]:
+        objs[0].sync_trait("x", objs[i])
+    hits, tags, outs = [], set(), []
+    _silence()
+    try:
+        for j, (who, val) in enumerate(c["steps"]):
+            before = [o.x for o in objs]
+            del where[:]
+            if j == c["at"]:
+                fault.arm(c["k"], c["exc"])
+            try:
+                objs[who].x = val
+                r = "ok"
+            except Exception as ex:
+                r = "err " + S.exc_name(ex)
+            fired = fault.fired
+            fault.disarm()
+            fault.fired = False
+            after = [o.x for o in objs]
+            locks = [dict(o.__dict__.get("__sync_trait__", {}).get("", {})) for o in objs]
+            outs.append(r)
+            sg = "sync:%s%d" % (kinds[who], len(kinds))
+            if any(locks):
+                hits.append(_hit("sync-lock-left:" + sg, "a re-entrancy lock stays set after the assignment", locks=repr(locks)))
+            if fired and where and where[0] is objs[who]:
+                tags.add("fired:sync-own:" + c["exc"])
+                if not r.startswith("err"):
+                    hits.append(_hit("callback-failure-swallowed:" + sg, "the source's own validator failed but the assignment succeeded"))
+                if after != before:
+                    hits.append(_hit("failed-op-mutated:" + sg, "a rejected assignment changed the group", before=before, after=after))
+            elif fired and where:
+                tags.add("fired:sync-partner:" + c["exc"])
+                bad = objs.index(where[0])
+                # the links form a star around object 0: a change travels spoke -> hub -> other spokes, so a hub that
+                # refuses the value shields the other spokes (by topology, not a defect); a refusing spoke only itself
+                if bad == 0:
+                    want = [val if i == who else before[i] for i in range(len(objs))]
+                else:
+                    want = [before[i] if i == bad else val for i in range(len(objs))]
+                if r != "ok" or after != want:
+                    hits.append(_hit("half-updated-group:" + sg, "the validator of partner %d raised %s during the propagation: expected the other "
+                                     "partners to follow the source (%r), observed %s %r" % (bad, c["exc"], want, r, after), before=before))
+            elif r == "ok" and len(set(before)) == 1 and val != before[who] and after != [val] * len(objs):
+                hits.append(_hit("sync-diverged:" + sg, "fault-free assignment did not reach every partner", after=after))
+    finally:
+        _unsilence()
+    return " ; ".join(outs), hits, tags
+
+
+def gen_sync(rng, exc):
+    n = rng.randint(2, 4)
+    kinds = rng.choice("AB") + "".join(rng.choice("AB") for _ in range(n - 1))
+    if "B" not in kinds:
+        kinds = kinds[:-1] + "B"
+    order = list(range(1, n))
+    rng.shuffle(order)
+    steps = [[rng.randrange(n), rng.choice([1, 2, 3, 5, 8, 13])] for _ in range(rng.randint(1, 5))]
+    # distinct consecutive values so that every step is a real change
+    for i in range(1, len(steps)):
+        if steps[i][1] == steps[i - 1][1]:
+            steps[i][1] += 20
+    return {"scalar": "sync", "kinds": kinds, "order": order, "steps": steps, "at": rng.randrange(len(steps)),
+            "k": rng.randint(0, kinds.count("B") - 1), "exc": exc}
+
+
+RUNNERS = {"sync": run_sync, "delegate": run_delegate, "observe-filter": run_observe_filter, "legacy-chain": run_legacy_chain, "validator": run_validator, "default": run_default, "property": run_property,
            "adapter": run_adapter, "handler": run_handler, "adapter-trait": run_adapter_trait,
            "property-notify": run_property_notify}
 
@@ -931,10 +1027,13 @@ def generate(rng, n, excs):
     for _ in range(n):
         r = rng.random()
         exc = rng.choice(excs)
-        if rng.random() < 0.12:
+        r0 = rng.random()
+        if r0 < 0.12:
             c = gen_delegate(rng, exc)
             if c is None:
                 continue
+        elif r0 < 0.2:
+            c = gen_sync(rng, exc)
         elif r < 0.45:
             steps = []
             for _ in range(rng.randint(1, 6)):
